@@ -114,7 +114,7 @@ func (r *Result) Sample(s any) {
 
 func (r *Result) Violation(kind, what string, detail M) {
 	r.mu.Lock()
-	if len(r.Violations) < 200 {
+	if len(r.Violations) < 400 && r.Counts["violations:"+kind] < 40 { // per-kind cap: one systematic deviation must not crowd out the others
 		v := M{"kind": kind, "what": what}
 		for k, x := range detail {
 			v[k] = x
@@ -176,7 +176,7 @@ func Try(f func()) (panicked bool, msg string) {
 			lines := strings.Split(st, "\n")
 			var keep []string
 			for _, l := range lines {
-				if strings.Contains(l, "/repo/") || strings.Contains(l, "gabi") {
+				if strings.Contains(l, "/repo/") || strings.Contains(l, "gabi") || (strings.Contains(l, ".go:") && !strings.Contains(l, "/runtime/") && !strings.Contains(l, "verifharness")) {
 					keep = append(keep, strings.TrimSpace(l))
 				}
 				if len(keep) >= 6 {
